@@ -222,7 +222,7 @@ var modelledKinds = []string{"sample", "statecount", "wherecount", "evalcount", 
 	"stateduration", "changedetect", "derivative", "derivativenn", "windowc", "windowcfill", "alertthr", "alertthrsco",
 	"statecountfn", "statedurationfn", "winstatecountfn",
 	"winsample", "winstatecount", "winwhere", "winchange", "winderiv", "winsum", "wincount",
-	"windowt", "windowtalign", "windowtfill", "alertflap", "winalert", "winalertcount"}
+	"windowt", "windowtalign", "windowtfill", "alertflap", "winalert", "winalertcount", "wineval"}
 var opaqueKinds []string
 
 func init() {
@@ -388,6 +388,9 @@ func genIso(r *kit.Rand, kind string, big bool) []string {
 		}
 		if (kind == "sum" || kind == "count") && r.Chance(1, 10) {
 			v = genVal(r, kit.Pick(r, []string{"i", "s"})) // type change inside a group
+		}
+		if kind == "wineval" && r.Chance(1, 6) {
+			v = genVal(r, kit.Pick(r, []string{"i", "f"})) // int and float points in one group: does a failed int + float step count()?
 		}
 		tags := map[string]string{}
 		for k, x := range cur.tags {
